@@ -605,6 +605,27 @@ func getASN(m *bgp.BGPOpen) uint32 {
 	return asn
 }
 
+// negotiateTimers sets the timer values in force for the session.
+// RFC 4271 P.13
+// a BGP speaker MUST calculate the value of the Hold Timer
+// by using the smaller of its configured Hold Time and the Hold Time
+// received in the OPEN message.
+func negotiateTimers(conf *oc.Neighbor, body *bgp.BGPOpen) {
+	holdTime := float64(body.HoldTime)
+	myHoldTime := conf.Timers.Config.HoldTime
+	if holdTime > myHoldTime {
+		conf.Timers.State.NegotiatedHoldTime = myHoldTime
+	} else {
+		conf.Timers.State.NegotiatedHoldTime = holdTime
+	}
+
+	keepalive := conf.Timers.Config.KeepaliveInterval
+	if n := conf.Timers.State.NegotiatedHoldTime; n < myHoldTime {
+		keepalive = n / 3
+	}
+	conf.Timers.State.KeepaliveInterval = keepalive
+}
+
 func (fsm *fsm) stateChange(nextState bgp.FSMState, reason *fsmStateReason) {
 	fsm.lock.Lock()
 	conf := fsm.pConf.ReadCopy()
@@ -619,6 +640,12 @@ func (fsm *fsm) stateChange(nextState bgp.FSMState, reason *fsmStateReason) {
 		slog.String("reason", reason.String()))
 
 	switch nextState {
+	case bgp.BGP_FSM_OPENCONFIRM:
+		// RFC 4271 8.2.2: the hold and keepalive timers of OpenConfirm already run
+		// with the values negotiated by the OPEN just received
+		if fsm.recvOpen != nil {
+			negotiateTimers(&conf, fsm.recvOpen.Body.(*bgp.BGPOpen))
+		}
 	case bgp.BGP_FSM_ESTABLISHED:
 		remoteTCP := fsm.conn.RemoteAddr().(*net.TCPAddr)
 		remoteAddr, _ := netip.AddrFromSlice(remoteTCP.IP)
@@ -674,24 +701,7 @@ func (fsm *fsm) stateChange(nextState bgp.FSMState, reason *fsmStateReason) {
 		_, peerExt := fsm.capMap[bgp.BGP_CAP_EXTENDED_MESSAGE]
 		fsm.extendedMessage.Store(peerExt)
 
-		// calculate HoldTime
-		// RFC 4271 P.13
-		// a BGP speaker MUST calculate the value of the Hold Timer
-		// by using the smaller of its configured Hold Time and the Hold Time
-		// received in the OPEN message.
-		holdTime := float64(body.HoldTime)
-		myHoldTime := conf.Timers.Config.HoldTime
-		if holdTime > myHoldTime {
-			conf.Timers.State.NegotiatedHoldTime = myHoldTime
-		} else {
-			conf.Timers.State.NegotiatedHoldTime = holdTime
-		}
-
-		keepalive := conf.Timers.Config.KeepaliveInterval
-		if n := conf.Timers.State.NegotiatedHoldTime; n < myHoldTime {
-			keepalive = n / 3
-		}
-		conf.Timers.State.KeepaliveInterval = keepalive
+		negotiateTimers(&conf, body)
 
 		// what was negotiated is a property of one session: start from the configuration
 		conf.GracefulRestart.State.Enabled = false
